@@ -148,6 +148,7 @@ type Store struct {
 	Pos   token.Pos
 	Fn    string
 	Loop  bool
+	Seq   int // program-order stamp shared with child-encoding records (Snap["#seq"])
 }
 
 type RetRec struct {
@@ -207,6 +208,7 @@ type sharedCtx struct {
 	nextSym int
 	nextLoop int
 	lenDepth int
+	seq      int
 }
 
 type CallRec struct {
@@ -1085,6 +1087,8 @@ func (in *Interp) recordStore(st *State, path, op, rhs string, v Val, pos token.
 	}
 	if root == "$" || strings.HasPrefix(path, "global:") || strings.HasPrefix(root, "arg:") {
 		s := &Store{Path: path, Op: op, RHS: rhs, Val: v, Guard: in.guard(), Pos: pos, Fn: in.fi.Key, Loop: len(in.loops) > 0}
+		in.shared.seq++
+		s.Seq = in.shared.seq
 		for i := in; i != nil; i = i.parent {
 			i.Stores = append(i.Stores, s)
 		}
